@@ -85,6 +85,91 @@ TimeSeriesSeries(X) ==
          Series(IF d = 1 THEN InputLabel(i) ELSE "", [k \in DOMAIN X.L |-> Q(Add(Frac(X.T[d], 86400), Frac(X.L[k], 24)))],
                 [k \in DOMAIN X.L |-> fc(i, X.T[d], X.L[k])])]
 
+\* ---- third tranche (deterministic data) ------------------------------------------------------------------------
+\* the whole-array view of input i: obs and fcst of a case count only if BOTH are valid (and valid in every input: X.adj)
+JointValid(X, i, c) == IsFinite(X.adj[i, "obs", c]) /\ IsFinite(X.adj[i, "fcst", c])
+ErrAt(X, i, c) == Sub(X.adj[i, "obs", c], X.adj[i, "fcst", c])
+\* 2x2 table with separate events for the observation and the forecast
+TableIv(p, ivO, ivF) ==
+  <<Cardinality({k \in DOMAIN p : In(ivF, p[k][2]) /\ In(ivO, p[k][1])}), Cardinality({k \in DOMAIN p : In(ivF, p[k][2]) /\ ~In(ivO, p[k][1])}),
+    Cardinality({k \in DOMAIN p : ~In(ivF, p[k][2]) /\ In(ivO, p[k][1])}), Cardinality({k \in DOMAIN p : ~In(ivF, p[k][2]) /\ ~In(ivO, p[k][1])})>>
+\* droc: (false alarm rate, hit rate) of the observed event {obs in event(t)} when it is forecast by {fcst in event(ft)}, for a list of
+\* forecast thresholds ft, between the end points (1,1) and (0,0); droc0 uses the single forecast threshold t
+DRocFths(t) == [k \in 1..31 |-> Add(Sub(t, R(10)), Frac(20 * (k - 1), 30))]        \* 31 equally spaced values t-10 .. t+10 (variables other than Precip)
+DRocSeries(X, bt, t, fths) ==
+  LET ivO == Intervals(bt, <<t>>)[1]  ivF == Intervals(bt, fths) IN
+  [i \in 1..X.n |-> LET p == Pooled(X, i) IN
+     Series(InputLabel(i), <<Q(One)>> \o [k \in DOMAIN ivF |-> Cat("fa", TableIv(p, ivO, ivF[k]))] \o <<Q(Zero)>>,
+                           <<Q(One)>> \o [k \in DOMAIN ivF |-> Cat("hit", TableIv(p, ivO, ivF[k]))] \o <<Q(Zero)>>)]
+\* change: absolute error as a function of the change of the observation since the previous initialisation time; bins (e_k, e_k+1]
+ChangePoints(X, i) ==
+  LET idx == {<<d, l, s>> \in (2..Len(X.T)) \X Elems(X.L) \X Elems(X.S) : JointValid(X, i, <<X.T[d], l, s>>) /\ JointValid(X, i, <<X.T[d - 1], l, s>>)} IN
+  {[at |-> c, chg |-> Sub(X.adj[i, "obs", <<X.T[c[1]], c[2], c[3]>>], X.adj[i, "obs", <<X.T[c[1] - 1], c[2], c[3]>>]),
+    err |-> AbsR(ErrAt(X, i, <<X.T[c[1]], c[2], c[3]>>))] : c \in idx}
+SumOver(S, Fn(_)) == LET RECURSIVE go(_) go(T) == IF T = {} THEN Zero ELSE LET x == CHOOSE y \in T : TRUE IN Add(Fn(x), go(T \ {x})) IN go(S)
+MeanOverSet(S, Fn(_)) == IF S = {} THEN NaNE ELSE Q(Div(SumOver(S, Fn), R(Cardinality(S))))
+ChangeSeries(X, edges) ==
+  [i \in 1..X.n |-> LET inbin(k) == {pt \in ChangePoints(X, i) : Gt(pt.chg, edges[k]) /\ Le(pt.chg, edges[k + 1])} IN
+     Series(InputLabel(i), [k \in 1..(Len(edges) - 1) |-> MeanOverSet(inbin(k), LAMBDA pt : pt.chg)],
+                           [k \in 1..(Len(edges) - 1) |-> MeanOverSet(inbin(k), LAMBDA pt : pt.err)])]
+\* autocov / autocorr along the lead-time or time axis: for every ORDERED pair (a, b) of axis values the point
+\* (|a - b| in hours, covariance / correlation of the errors at a and at b over the cases valid at both); fewer than 2 common cases: NaN
+AutoOther(X, axis) == IF axis = "leadtime" THEN Elems(X.T) \X Elems(X.S) ELSE Elems(X.L) \X Elems(X.S)
+AutoCase(axis, a, o) == IF axis = "leadtime" THEN <<o[1], a, o[2]>> ELSE <<a, o[1], o[2]>>
+AutoDist(axis, a, b) == IF axis = "leadtime" THEN R(Abs(a - b)) ELSE Frac(Abs(a - b), 3600)
+AutoPairs(X, i, axis, a, b) ==      \* the error pairs, in any fixed order
+  LET both == {o \in AutoOther(X, axis) : JointValid(X, i, AutoCase(axis, a, o)) /\ JointValid(X, i, AutoCase(axis, b, o))}
+      RECURSIVE seq(_) seq(S) == IF S = {} THEN <<>> ELSE LET o == CHOOSE y \in S : TRUE IN
+                                   <<<<ErrAt(X, i, AutoCase(axis, a, o)), ErrAt(X, i, AutoCase(axis, b, o))>>>> \o seq(S \ {o})
+  IN  seq(both)
+\* covariances from the raw sums (n Sxy - Sx Sy), so that the intermediate rationals keep small denominators
+CovNum(p) == Sub(Mul(R(Len(p)), SumSeq([k \in DOMAIN p |-> Mul(p[k][1], p[k][2])])), Mul(SumSeq(O(p)), SumSeq(F(p))))
+SampleCov(p) == Div(CovNum(p), R(Len(p) * (Len(p) - 1)))
+AutoValue(kind, p) ==
+  IF Len(p) < 2 THEN NaNE
+  ELSE IF kind = "cov" THEN Q(SampleCov(p))
+  ELSE LET vx == SampleCov([k \in DOMAIN p |-> <<p[k][1], p[k][1]>>])  vy == SampleCov([k \in DOMAIN p |-> <<p[k][2], p[k][2]>>]) IN
+       IF vx = Zero \/ vy = Zero THEN Undef ELSE DivE(Q(SampleCov(p)), MulE(SqrtE(Q(vx)), SqrtE(Q(vy))))
+AutoSeries(X, kind, axis) ==
+  LET vals == IF axis = "leadtime" THEN X.L ELSE X.T  n == Len(vals) IN
+  [i \in 1..X.n |-> Series(InputLabel(i), [m \in 1..(n * n) |-> Q(AutoDist(axis, vals[((m - 1) \div n) + 1], vals[((m - 1) % n) + 1]))],
+                           [m \in 1..(n * n) |-> AutoValue(kind, AutoPairs(X, i, axis, vals[((m - 1) \div n) + 1], vals[((m - 1) % n) + 1]))])]
+\* taylor: per slice the point (sd_f * r, sd_f * sqrt(1 - r^2)) with r the correlation and sd_f the (population) standard deviation of
+\* the forecasts; with more than one slice everything is divided by the standard deviation of the observations.  Written without the
+\* angle: x = cov / sd_o (normalised: cov / var_o), y = sqrt(var_f - cov^2 / var_o) (normalised: that over var_o).  A slice with
+\* |r| = 1 exactly is unconstrained (the rounding of r decides between 0 and NaN), one without variance is undefined.
+\* In terms of the raw sums (cn = n Sxy - Sx Sy = n^2 cov, von = n^2 var_o, vfn = n^2 var_f), which keeps TLC's 32-bit integers in range;
+\* slices of more than TaylorMax cases are left unconstrained for the same reason (domain restriction of the model, not of the code).
+TaylorMax == 24
+TaylorPoint(p, normalised) ==
+  IF p = <<>> \/ Len(p) > TaylorMax THEN [x |-> AnyE, y |-> AnyE]
+  ELSE LET n == Len(p)  cn == CovNum(p)  von == CovNum([k \in DOMAIN p |-> <<p[k][1], p[k][1]>>])  vfn == CovNum([k \in DOMAIN p |-> <<p[k][2], p[k][2]>>]) IN
+       IF von = Zero \/ vfn = Zero THEN [x |-> Undef, y |-> Undef]
+       ELSE LET b == Div(cn, von)  a == Div(vfn, von) IN        \* b = cov / var_o, a = var_f / var_o
+            IF Sq(b) = a THEN [x |-> AnyE, y |-> AnyE]
+            ELSE IF normalised THEN [x |-> Q(b), y |-> SqrtE(Q(Sub(a, Sq(b))))]
+            ELSE LET sdo == DivE(SqrtE(Q(von)), Q(R(n))) IN [x |-> MulE(Q(b), sdo), y |-> MulE(SqrtE(Q(Sub(a, Sq(b)))), sdo)]
+TaylorSeries(X, axis) ==
+  LET n == NumSlices(X, axis) IN
+  [i \in 1..X.n |-> Series(InputLabel(i), [k \in 1..n |-> TaylorPoint(PairsOf(X, i, axis, k), n > 1).x], [k \in 1..n |-> TaylorPoint(PairsOf(X, i, axis, k), n > 1).y])]
+\* fss along the lead-time axis: for every positive difference s of two lead times, the windows [a, b] with b - a = s; per window, time and
+\* location the fraction of valid cases with the observed (forecast) event; score = 1 - mean((fo - ff)^2) / (m (1 - m)), m = mean fo
+FssScales(X) == SortInts({Abs(a - b) : a, b \in Elems(X.L)})
+FssWindows(X, s) == {<<a, b>> \in Elems(X.L) \X Elems(X.L) : b - a = s}
+FssFraction(X, i, field, bt, t, w, tt, loc) ==
+  LET leads == {l \in Elems(X.L) : IndexIn(X.L, w[1]) <= IndexIn(X.L, l) /\ IndexIn(X.L, l) <= IndexIn(X.L, w[2]) /\ JointValid(X, i, <<tt, l, loc>>)} IN
+  IF leads = {} THEN NaN ELSE Frac(Cardinality({l \in leads : InEvent(bt, X.adj[i, field, <<tt, l, loc>>], t, t)}), Cardinality(leads))
+FssValue(X, i, bt, t, s) ==
+  IF s = 0 THEN NaNE ELSE
+  LET cells == {c \in FssWindows(X, s) \X Elems(X.T) \X Elems(X.S) : ~IsNaN(FssFraction(X, i, "obs", bt, t, c[1], c[2], c[3]))}
+      fo(c) == FssFraction(X, i, "obs", bt, t, c[1], c[2], c[3])  ff(c) == FssFraction(X, i, "fcst", bt, t, c[1], c[2], c[3])
+  IN  IF cells = {} THEN NaNE ELSE
+      LET m == Div(SumOver(cells, fo), R(Cardinality(cells)))  bs == Div(SumOver(cells, LAMBDA c : Sq(Sub(fo(c), ff(c)))), R(Cardinality(cells)))
+          unc == Mul(m, Sub(One, m)) IN
+      IF Gt(unc, Zero) THEN Q(Div(Sub(unc, bs), unc)) ELSE NaNE
+FssSeries(X, bt, t) ==
+  LET sc == FssScales(X) IN [i \in 1..X.n |-> Series(InputLabel(i), [k \in DOMAIN sc |-> Q(R(sc[k]))], [k \in DOMAIN sc |-> FssValue(X, i, bt, t, sc[k])])]
+
 \* every valid value falls in exactly one bin of a binned diagram whose events partition the line
 EveryValueInOneBin(v, bt, ths) ==
   (bt = "within=" /\ StrictlyIncreasing(ths)) =>
@@ -126,4 +211,56 @@ PitHistY(pit) == [b \in 1..10 |-> IF pit = <<>> THEN NaNE ELSE Q(Frac(100 * Card
 \* marginal: mean event probability per threshold, and the observed frequency of the event
 MarginalY(peByThreshold) == [t \in DOMAIN peByThreshold |-> IF peByThreshold[t] = <<>> THEN NaNE ELSE Q(MeanSeq(PP(peByThreshold[t])))]
 MarginalObsY(peByThreshold) == [t \in DOMAIN peByThreshold |-> IF peByThreshold[t] = <<>> THEN NaNE ELSE Q(MeanSeq(EE(peByThreshold[t])))]
+
+---------------------------------------------------------------------------
+(* third tranche: further diagrams of probabilistic forecasts (pe as above) and of quantile forecasts                        *)
+\* murphy: mean elementary score at the probability thresholds 0, 0.05, ..., 1.  A forecast above the threshold of a non-event costs
+\* 2 theta, one below the threshold of an event 2 (1 - theta); a forecast EQUAL to the threshold is charged 2 theta (1 - theta)
+\* whatever happens (verif's convention for ties).
+MurphyTheta(k) == Frac(k - 1, 20)
+MurphyXY(pe) ==
+  LET n == Len(pe)
+      cnt(P(_)) == Cardinality({m \in DOMAIN pe : P(pe[m])})
+      y(k) == LET th == MurphyTheta(k) IN
+              Add(Add(Mul(Mul(R(2), th), Frac(cnt(LAMBDA c : Gt(c[1], th) /\ c[2] = Zero), n)),
+                      Mul(Mul(R(2), Sub(One, th)), Frac(cnt(LAMBDA c : Lt(c[1], th) /\ c[2] = One), n))),
+                  Mul(Mul(Mul(R(2), th), Sub(One, th)), Frac(cnt(LAMBDA c : c[1] = th), n)))
+  IN  [x |-> [k \in 1..21 |-> Q(MurphyTheta(k))], y |-> [k \in 1..21 |-> IF n = 0 THEN NaNE ELSE Q(y(k))]]
+\* economic value at the cost-loss ratios r = (k/20)^3: protect (cost r) whenever p >= r, otherwise lose 1 if the event happens;
+\* value = (climatological expense - forecast expense) / (climatological expense - expense of a perfect forecast), 0 if those two agree
+EconomicXY(pe) ==
+  LET n == Len(pe)  clim == Ebar(pe)
+      r(k) == LET b == Frac(k - 1, 20) IN Mul(b, Mul(b, b))
+      total(k) == Div(Add(Mul(r(k), R(Cardinality({m \in DOMAIN pe : Ge(pe[m][1], r(k))}))),
+                          R(Cardinality({m \in DOMAIN pe : Lt(pe[m][1], r(k)) /\ pe[m][2] = One}))), R(n))
+      climCost(k) == IF Lt(clim, r(k)) THEN clim ELSE r(k)
+      perfect(k) == Mul(clim, r(k))
+  IN  [x |-> [k \in 1..21 |-> Q(r(k))],
+       y |-> [k \in 1..21 |-> IF n = 0 THEN NaNE ELSE IF climCost(k) = perfect(k) THEN Q(Zero)
+                              ELSE Q(Div(Sub(climCost(k), total(k)), Sub(climCost(k), perfect(k))))]]
+\* bsdecomp (default -x: all cases pooled): the point (reliability term, resolution term) of the Brier score
+BsDecompXY(pe) == [x |-> <<Prob("bsrel", pe)>>, y |-> <<Prob("bsres", pe)>>]
+\* igncontrib: 11 probability bins (last closed); per bin the mean probability against the bin's share of the total binary ignorance,
+\* scaled by the number of bins: (sum over the bin of -log2 of the probability given to what happened) / n * 11
+IgnEdges == [k \in 1..12 |-> Frac(k - 1, 11)]
+IgnContribXY(pe) ==
+  LET n == Len(pe)
+      idx(b) == InBinIdx(pe, IgnEdges, TRUE, b)
+      term(c) == SubE(Q(Zero), Log2E(Q(IF c[2] = One THEN c[1] ELSE Sub(One, c[1]))))
+  IN  [x |-> [b \in 1..11 |-> IF idx(b) = <<>> THEN NaNE ELSE Q(MeanSeq([m \in DOMAIN idx(b) |-> pe[idx(b)[m]][1]]))],
+       y |-> [b \in 1..11 |-> IF idx(b) = <<>> THEN NaNE ELSE MulE(SumE([m \in DOMAIN idx(b) |-> term(pe[idx(b)[m]])]), Q(Frac(11, n)))]]
+\* ---- quantile forecasts.  qc = sequence of <<obs, fcst, xLow, xMid, xHigh>> (all present) of one input ----
+\* invreliability for the level of xMid: bins [e_k, e_k+1) of the forecast quantile value; per bin the mean quantile value against the
+\* fraction of cases whose observation is at or below it (at least two cases, else not drawn)
+InvReliabilityXY(qc, edges) ==
+  LET idx(b) == SelectSeq([k \in DOMAIN qc |-> k], LAMBDA k : Ge(qc[k][4], edges[b]) /\ Lt(qc[k][4], edges[b + 1]))
+      nb == Len(edges) - 1
+  IN  [x |-> [b \in 1..nb |-> IF Len(idx(b)) >= 2 THEN Q(MeanSeq([m \in DOMAIN idx(b) |-> qc[idx(b)[m]][4]])) ELSE AnyE],
+       y |-> [b \in 1..nb |-> IF Len(idx(b)) >= 2 THEN Q(Frac(Cardinality({m \in DOMAIN idx(b) : Le(qc[idx(b)[m]][1], qc[idx(b)[m]][4])}), Len(idx(b)))) ELSE NaNE]]
+\* spreadskill: spread = xHigh - xLow in the bins (e_k-1, e_k]; per bin the mean spread against the RMSE of the deterministic forecast;
+\* the first point is never drawn
+SpreadSkillXY(qc, edges) ==
+  LET idx(b) == SelectSeq([k \in DOMAIN qc |-> k], LAMBDA k : Gt(Sub(qc[k][5], qc[k][3]), edges[b - 1]) /\ Le(Sub(qc[k][5], qc[k][3]), edges[b]))
+  IN  [x |-> [b \in 1..Len(edges) |-> IF b = 1 \/ idx(b) = <<>> THEN NaNE ELSE Q(MeanSeq([m \in DOMAIN idx(b) |-> Sub(qc[idx(b)[m]][5], qc[idx(b)[m]][3])]))],
+       y |-> [b \in 1..Len(edges) |-> IF b = 1 \/ idx(b) = <<>> THEN NaNE ELSE SqrtE(Q(MeanSeq([m \in DOMAIN idx(b) |-> Sq(Sub(qc[idx(b)[m]][1], qc[idx(b)[m]][2]))])))]]
 =============================================================================
